@@ -198,7 +198,10 @@ fn read_all_noargs<'a>(o: &mut Obs, env: &Env, d: FontData<'a>, only_small: bool
             }
         });
     }
-    if let Some(t) = ok(o, "aat::ExtendedStateTableU16", aat::ExtendedStateTableU16::read(d)) {
+    // (not in the typed scan: its placement-dependent panic -- a known finding --
+    // would otherwise mask other differences in the determinism comparison)
+    let xstate16 = if only_small { None } else { ok(o, "aat::ExtendedStateTableU16", aat::ExtendedStateTableU16::read(d)) };
+    if let Some(t) = xstate16 {
         o.guarded("payload:aat.xstate16", |o| {
             for g in &g16 {
                 o.helper("aat::ExtendedStateTable::class");
